@@ -251,6 +251,25 @@ pub fn gen_c06(run: &mut Run, seed: u64, thorough: bool) {
                 g.rotate(&cand2, &pf2, false, &AuthSpec::None, &format!("rotate-plain-right-after-bypass-nobody-{hname}"));
                 g.run.op("gw.epoch", "q");
             }
+            // … and the same when the bypass comes INSIDE the window: plain rotation (clock = t), bypass at t + 500 (clock moves),
+            // then nobody's plain rotation at t + 1000 — past the old boundary, before the new one
+            {
+                let t = g.now + 1000;
+                g.set_time(t);
+                let cand = g.mk_set(2, 0, 2);
+                g.rotate_honest(&cand, &format!("rotate-plain-at-boundary-{hname}"));
+                g.set_time(t + 500);
+                let cand = g.mk_set(2, 0, 2);
+                let latest = g.sets.last().unwrap().clone();
+                let pf = g.honest(&latest, &cand.rotation_data_hash(&g.env));
+                g.rotate(&cand, &pf, true, &AuthSpec::exact(&[oroles.holder.clone()]), &format!("rotate-bypass-inside-window-current-holder-{hname}"));
+                g.set_time(t + 1000);
+                let cand2 = g.mk_set(2, 0, 2);
+                let latest = g.sets.last().unwrap().clone();
+                let pf2 = g.honest(&latest, &cand2.rotation_data_hash(&g.env));
+                g.rotate(&cand2, &pf2, false, &AuthSpec::None, &format!("rotate-plain-past-old-boundary-nobody-{hname}"));
+                g.run.op("gw.epoch", "q");
+            }
             for (ep, role_is_owner) in [("gw.transfer_operatorship", false), ("gw.transfer_ownership", true)] {
                 let ps = if role_is_owner { principals(&wroles, &oroles.holder, &bene) } else { principals(&oroles, &wroles.holder, &bene) };
                 for (au, pc) in ps {
@@ -464,6 +483,17 @@ pub fn gen_c07(run: &mut Run, seed: u64, thorough: bool) {
             for (au, cl) in ws {
                 run.op(&format!("{ep} {args} {au}"), &format!("{}-{cl}", &ep[3..]));
                 run.op(&format!("sac.balance {} {}", tok.tok(), subject.tok()), "q");
+                run.op(&format!("sac.balance {} {}", tok.tok(), gs.tok()), "q");
+            }
+        }
+        // the SERVICE ITSELF named as spender (it holds what was paid in above): nobody can authorise that from outside
+        for (ep, args) in [
+            ("gs.pay_gas", format!("{} {} {} {} {} {} 7 -", sender.tok(), hx(b"eth"), hx(b"0x"), hx(b"payload"), gs.tok(), tok.tok())),
+            ("gs.add_gas", format!("{} {} {} {} 7", sender.tok(), hx(b"msg"), gs.tok(), tok.tok())),
+            ("gs.add_gas", format!("{} {} {} {} 14", sender.tok(), hx(b"msg"), gs.tok(), tok.tok())),
+        ] {
+            for (au, cl) in [("-".to_string(), "nobody"), (sender.tok(), "sender"), (Addr::c(99).tok(), "stranger"), (Addr::c(OPER0).tok(), "gas-collector"), (owner0.tok(), "owner")] {
+                run.op(&format!("{ep} {args} {au}"), &format!("{}-service-as-spender-{cl}", &ep[3..]));
                 run.op(&format!("sac.balance {} {}", tok.tok(), gs.tok()), "q");
             }
         }
